@@ -184,6 +184,9 @@ def is_time_rhs(rhs):
 def rhs_real(rhs):
     if is_time_rhs(rhs):
         return from_us(rhs[1], rhs[2])
+    if isinstance(rhs, tuple) and len(rhs) == 2 and rhs[0] == "NAIVE":
+        # a naive comparison value (legal to construct; only used where no model answer is needed, i.e. C17)
+        return from_us(rhs[1]).replace(tzinfo=None)
     return rhs
 
 
